@@ -136,7 +136,7 @@ fn schedule_n2_k2(base: u32) {
 #[kani::unwind(6)]
 fn o1_4_receiver_model_n2_k2_base0() { schedule_n2_k2(0); }
 
-//@h props=C01,C02 tier=quick timeout=1800 role=receiver-model
+//@h props=C02,C01 tier=quick timeout=1800 role=receiver-model
 //@fn PacketReceiver::{handle_datagram, receive, advance_window, set_channel_base_id, try_unset_channel_base_id}, AssemblyWindow::{try_add, clear}, datagram_is_valid
 //@bound W=4 slots, base id 2^20-1 (the second packet's id wraps to 0); history of 2 packets; 2 arrivals of ANY packet of the history; receive() cadence any
 #[kani::proof]
